@@ -7,15 +7,23 @@ use serde_json::Value;
 use std::io::{BufRead, Write};
 
 mod p_config;
+mod sim;
+mod p_buflog;
+mod p_repl;
+mod p_leader;
 
 pub fn ints(v: &Value) -> Vec<u64> {
     v.as_array().map(|a| a.iter().map(|x| x.as_u64().unwrap_or(0)).collect()).unwrap_or_default()
 }
 
 fn dispatch(probe: &str, rt: &tokio::runtime::Runtime, case: Value) -> Value {
-    let _ = rt;
     match probe {
         "config" => p_config::run(case),
+        "buflog" => p_buflog::run(rt, case),
+        "repl_leader" => p_repl::leader(rt, case),
+        "repl_follower" => p_repl::follower(rt, case),
+        "leader_commit" => p_leader::commit(rt, case),
+        "majority" => p_buflog::majority(rt, case),
         _ => Value::String(format!("unknown probe {probe}")),
     }
 }
